@@ -188,11 +188,16 @@ def genuine_replies(q: bytes) -> list[bytes]:
     rs = bytes([(s + 0x40) & 0xFF])
     try:
         if s == 0x10:
-            return [rs + bytes([sf]) + bytes.fromhex("003201f4")]
+            # sessionParameterRecord: 4 bytes since ISO 14229-1:2013, manufacturer specific (any length) before;
+            # the layout contract says Rest("record", 0): every length is the genuine positive reply
+            rec = bytes.fromhex("003201f4aabbccdd")
+            return [rs + bytes([sf]) + rec[:4]] + [rs + bytes([sf]) + rec[:n] for n in (0, 1, 2, 3, 5, 6, 8)]
         if s == 0x11:
             return [rs + bytes([sf]) + (b"\x0a" if sf == 4 else b"")]
         if s == 0x27:
-            return [rs + bytes([sf]) + (b"\xde\xad\xbe\xef" if sf % 2 else b"")]
+            if sf % 2:  # securitySeed: length is up to the ECU
+                return [rs + bytes([sf]) + b"\xde\xad\xbe\xef"[:n] for n in (4, 1, 2, 3)] + [rs + bytes([sf]) + bytes(range(16))]
+            return [rs + bytes([sf])]
         if s in (0x28, 0x85):
             return [rs + bytes([sf])]
         if s == 0x3E:
